@@ -164,11 +164,11 @@ C06c(s, nh) == V(s.fin /\ ~s.aborted /\ Alive(s), nh = "ok")
 (***************************************************************************)
 C07a(cx, s) ==
   V(Alive(s) /\ s.ready # {} /\ (s.failed \cup s.upf) # {},
-    /\ \A j \in s.ready : Ups(cx.c, j) \cap (s.failed \cup s.upf) = {}
-    /\ s.ready \cap Blocked(cx.c, s.failed, s.started) = {})
+    /\ \A j \in s.ready : Ups(cx.c, j) \cap (s.failed \cup (s.upf \ s.skipev)) = {}
+    /\ s.ready \cap Blocked(cx.c, s.failed, s.started, s.skipev) = {})
 C07b(cx, s) ==
   V(Alive(s) /\ s.fin /\ ~s.aborted /\ s.failed # {},
-    \A j \in Blocked(cx.c, s.failed, s.started) \ cx.leafy : j \in s.upf)
+    \A j \in Blocked(cx.c, s.failed, s.started, s.skipev) \ cx.leafy : j \in s.upf)
 C07c(cx, s) == V(Alive(s) /\ s.upf # {}, s.upf \cap s.started = {})
 C07d(cx, s) ==
   V(Alive(s) /\ s.upf # {},
